@@ -17,8 +17,13 @@ def _verify_one(args):
     from .pyvc.replay import pyvc_replayer
     from .pyvc import spec as S
     t0 = time.time()
+    only = None
+    if "##" in key:
+        # "function##text": only the clauses of that function's contract whose label contains the text belong to this property
+        key, sub = key.split("##", 1)
+        only = lambda lab, _s=sub: _s in lab
     try:
-        results, E = verify_function(key, prefix, replayer=pyvc_replayer)
+        results, E = verify_function(key, prefix, replayer=pyvc_replayer, only_labels=only)
         meta = {"key": key, "source": E.source_segment() if E is not None else "",
                 "assumed": sorted(E.used_assumed) if E is not None else [],
                 "used": sorted(E.used_contracts) if E is not None else [],
@@ -94,12 +99,12 @@ def run_pyvc(rep: Report, keys, native_limit=150):
     small-scope check of the same contract (bounded stand-in / contract sanity)."""
     from .pyvc import spec as S
     prefix = rep.prop + "."
-    keys = [k for k in keys if not S.CONTRACTS[k].assumed]
+    keys = [k for k in keys if not S.CONTRACTS[k.split("##")[0]].assumed]
     on_timeout = lambda job: ([Result(prefix + job[0].split(":")[1], UNDECIDED, function=job[0], backend="pyvc",
                                       output="verification of this function exceeded %d s of wall time and was abandoned (no verdict)" % FUNC_DEADLINE_S)],
                               {"key": job[0], "source": "", "assumed": [], "used": [], "paths": 0, "time": FUNC_DEADLINE_S})
     # functions with many paths (contract flag heavy=True) go first, one at a time, their obligations spread over all cores
-    heavy = [k for k in keys if getattr(S.CONTRACTS[k], "heavy", False)]
+    heavy = [k for k in keys if getattr(S.CONTRACTS[k.split("##")[0]], "heavy", False)]
     outs = []
     for k in heavy:
         os.environ["VERIF_INNER_PAR"] = str(NPROC)
@@ -118,7 +123,7 @@ def run_pyvc(rep: Report, keys, native_limit=150):
             if u.startswith("fun:"):
                 pass
     if native_limit:
-        nat = pool_map(_bounded_one, [(k, prefix, native_limit) for k in keys if not S.CONTRACTS[k].native_skip])
+        nat = pool_map(_bounded_one, [(k, prefix, native_limit) for k in keys if "##" not in k and not S.CONTRACTS[k].native_skip])
         rep.extend(nat)
     for r in rep.results[:3]:
         rep.sample(r.brief())
